@@ -295,7 +295,16 @@ def run_client_iteration(case):
   server = courier_server.PrefetchedCourierServer(name, prefetch_size=case['prefetch_size'], timeout_secs=11000 + next(_counter))
   server.start()
   courier_utils.worker_registry().register(name, time.time())
-  client = courier_utils.CourierClient(name, call_timeout=5, iterate_batch_size=case['batch_size'])
+  import numpy as np  # pylint: disable=g-import-not-at-top
+  bsz = {'int': int, 'int32': np.int32, 'int64': np.int64}[case.get('batch_kind', 'int')](case['batch_size'])
+  client = courier_utils.CourierClient(name, call_timeout=5, iterate_batch_size=bsz)
+  what += f' batch size type={case.get("batch_kind", "int")} busy background jobs={case.get("busy_jobs", 0)}'
+  # fire-and-forget jobs keep the server's shared thread pool busy while the generator is served
+  gate = f'busy{next(_counter)}'
+  import threading as _th  # pylint: disable=g-import-not-at-top
+  targets.GATES[gate] = (_th.Event(), _th.Event())
+  for _ in range(case.get('busy_jobs', 0)):
+    client.call(lf.trace(targets.gated_raise)(gate, 'value', 1), return_immediately=True).result()
   task = courier_utils.GeneratorTask.new(lf.trace(targets.gen_failing_with)(g['n'], g['fail_at'], g['exc'], g['msg'], g['ret'], 'T'))
   rq = queue.SimpleQueue()
   got, box = [], {}
@@ -352,6 +361,8 @@ def run_client_iteration(case):
   hung = th.is_alive()
   courier.INTERCEPT = None
   courier.release_parked(name)
+  targets.GATES[gate][1].set()
+  targets.GATES.pop(gate, None)
   server._request_shutdown()  # pylint: disable=protected-access
   check(not hung, 'client-keeps-polling-a-finished-generator',
         f'{what}: the client was still asking for batches after 10 s; delivered so far {got}')
@@ -387,6 +398,9 @@ def strat_client_iteration(tier):
     case = {'gen': g, 'batch_size': draw(st.integers(1, 4)), 'prefetch_size': draw(st.integers(1, 3))}
     if draw(st.booleans()):
       case['second'] = draw(st.integers(1, 6))
+    case['batch_kind'] = draw(st.sampled_from(['int', 'int', 'int32', 'int64']))
+    if draw(st.integers(0, 5)) == 0:
+      case['busy_jobs'] = draw(st.sampled_from([19, 20, 33, 40]))      # around and above the default sizes of a shared thread pool
     return case
   return s()
 
